@@ -109,7 +109,9 @@ pub fn run_case(ctx: &mut Ctx, fam: &str, k: u64, r: &mut Rng) {
             // one long dimension: reductions / maps over 17..70 elements meet blocked loops' tails
             d = rand_shape(r, 3, 3);
             let i = r.below(d.len());
-            d[i] = r.range(9, 70);
+            d[i] = if r.chance(1, 2) { r.range(9, 70) } else { super::shapes::long_dim(r) };
+        } else if r.chance(1, 8) {
+            d = super::shapes::high_rank_shape(r);
         }
         (d, r.below(FUNCS as usize) as u64)
     };
